@@ -81,6 +81,12 @@ Fixpoint enum (n : node) (lc : loc) {struct n} : list (loc * hkind) :=
   | NLeaf _ _ => []
   end.
 
+(* the whole document: a lone scalar is its own (only) place, at the root; a
+   null document is empty *)
+Definition enum_doc (d : node) : list (loc * hkind) :=
+  if is_container d then enum d []
+  else if negb (is_none_leaf d) && o_values o && satb d then [([], HValue)] else [].
+
 (* ---- the generic loop lemma ---- *)
 Lemma loop_floop {A} (body : A -> nat -> list string -> outcome res)
       (g : A -> nat -> list (loc * hkind)) (l : list A) :
@@ -235,14 +241,14 @@ Qed.
 Lemma value_part_enum rec g am v tmp lc' seen r :
   is_hit am = false -> am <> AliasExcluded ->
   is_unsearchable_alias am && negb (o_valias o) = false ->
-  (forall r, rec v tmp lc' seen = Ok r -> map h_lk (fst r) = g v lc') ->
+  (is_container v = true -> forall r, rec v tmp lc' seen = Ok r -> map h_lk (fst r) = g v lc') ->
   value_part lit re_search mt tm sp o rec am v tmp lc' seen = Ok r ->
   map h_lk (fst r) = val_enum g v lc'.
 Proof.
   intros Hh Hx Hu Hrec E. unfold value_part in E. unfold val_enum.
   destruct am; simpl in Hh; try discriminate; try congruence;
     rewrite Hu in E; simpl in E;
-    (destruct (is_container v); [apply Hrec; exact E|]);
+    (destruct (is_container v); [apply Hrec; [reflexivity|exact E]|]);
     (destruct (o_values o); simpl;
      [ destruct (term_matches lit re_search tm (node_hay v)) as [[|]| |] eqn:Em; simpl in E; try discriminate;
        inversion E; subst; simpl;
@@ -262,13 +268,13 @@ Lemma sfp_seq_eq i els bp lc seen :
 Proof. reflexivity. Qed.
 
 Theorem sfp_enum n :
-  o_anchors o = false -> transparent n ->
+  o_anchors o = false -> transparent n -> is_container n = true ->
   forall bp lc seen r,
     search_for_paths lit re_search mt aa tm sp o n bp lc seen = Ok r ->
     map h_lk (fst r) = enum n lc.
 Proof.
-  intros Ha. induction n as [i v|i kvs IH|i els IH|i els IH] using node_ind'; intros Ht bp lc seen r E.
-  - simpl in E. inversion E; reflexivity.
+  intros Ha. induction n as [i v|i kvs IH|i els IH|i els IH] using node_ind'; intros Ht Hc bp lc seen r E.
+  - discriminate Hc.
   - (* mapping *)
     simpl in E.
     match type of E with bind (loop ?b _ _ _) _ = _ => set (body := b) in * end.
